@@ -68,7 +68,11 @@ def do_import(src, log, tag='', base=BASE_COMMIT):
 
 def do_run(ids):
     rows = []
-    for d in sorted(glob.glob(os.path.join(SEEDED, 'C*-*'))):
+    shard = os.environ.get('SEED_SHARD')      # "i/n": this process takes every n-th change, starting with the i-th, and writes /tmp/seedres/<i>.json (merged by `seeds.py merge`)
+    si, sn = (int(x) for x in shard.split('/')) if shard else (0, 1)
+    for di, d in enumerate(sorted(glob.glob(os.path.join(SEEDED, 'C*-*')))):
+        if di % sn != si:
+            continue
         meta = json.load(open(os.path.join(d, 'meta.json')))
         pid = meta['property']
         if ids and pid not in ids and meta['seed'] not in ids:
@@ -76,7 +80,7 @@ def do_run(ids):
         if meta.get('no_longer_violates'):
             rows.append((meta['seed'], pid, 'n/a', 'the change no longer breaks the property on the current code: ' + meta.get('superseded', ''), meta['title']))
             print(rows[-1]); continue
-        scr = '/tmp/seedscr'
+        scr = '/tmp/seedscr' + (str(si) if shard else '')
         shutil.rmtree(scr, ignore_errors=True)
         os.makedirs(scr)
         subprocess.run('git -C /repo archive HEAD | tar -x -C %s' % scr, shell=True, check=True)
@@ -105,6 +109,14 @@ def do_run(ids):
             rows.append((meta['seed'], pid, 'missed', 'OK (the changed code is outside the functions under contract, or the contract is too weak)', meta['title']))
         print(rows[-1])
         shutil.rmtree(scr, ignore_errors=True)
+    if shard:
+        os.makedirs('/tmp/seedres', exist_ok=True)
+        json.dump(rows, open('/tmp/seedres/%d.json' % si, 'w'))
+        return
+    write_results(rows, ids)
+
+
+def write_results(rows, ids):
     if not ids:
         head = subprocess.run(['git', '-C', '/repo', 'rev-parse', '--short', 'HEAD'], capture_output=True, text=True).stdout.strip()
         with open(os.path.join(SEEDED, 'RESULTS.md'), 'w') as f:
@@ -120,5 +132,10 @@ def do_run(ids):
 if __name__ == '__main__':
     if sys.argv[1] == 'import':
         do_import(sys.argv[2], sys.argv[3], *(sys.argv[4:6]))
+    elif sys.argv[1] == 'merge':
+        rows = []
+        for f in sorted(glob.glob('/tmp/seedres/*.json')):
+            rows += [tuple(r) for r in json.load(open(f))]
+        write_results(sorted(rows), [])
     else:
         do_run(sys.argv[2:])
